@@ -409,45 +409,83 @@ def r01_4(cx):
 
 
 # ------------------------------------------------------------------------------------------------- R03.2 / R16.4
+def loops_blocks(b, h):
+    return b.loops()[h]
+
+
 def r03_2(cx):
     n = 0
+    most = {}
     for fn in ('finish_build_one_start', 'finish_build_both_starts'):
         b = cx.body('dfa::Builder::' + fn)
-        for bi, t in b.calls(r'dfa::DFA::set_matches$'):
-            ct = b.call_term(bi, t)
-            n += 1
-            it = ct[2][2]
-            ok = is_call(it, r'nfa::noncontiguous::NFA::iter_matches$') and is_var(peel(it[2][0]), 'nnfa') and is_var(it[2][1], 'oldsid')
-            sidv = expand_vars(b, ct[2][1], keep=('oldsid', 'newsid', 'unewsid', 'anewsid'))
-            okd = tstr(peel(ct[2][0])) == 'dfa'
-            # guarded by state.is_match()
-            g = bool_gates(b, lambda x: is_call(x, r'State::is_match$') and is_var(peel(x[2][0]), 'state'))
-            okg = bool(g) and not reachable_without(b, [bi], [e for x in g for e in x[2]], src=[h for h, blks in b.loops().items() if bi in blks][0])
-            cx.report('R03.2', b, 'set_matches@%d' % n, ok and okd and okg, 'set_matches(%s, nnfa.iter_matches(oldsid)) for the state being transcribed, iff it is a match state' % tstr(ct[2][1]) if ok and okd and okg else
-                      'match list transcription deviates: %s' % tstr(ct, 200), line_of(b, bi))
+        NN = cstr(param_of_type(b, r'noncontiguous::NFA'))
+        sites = b.calls(r'dfa::DFA::set_matches$')
+        n += len(sites)
+        seen_sites = set()
+        why = None
+        hs = {innermost_loop(b, bi) for bi, t in sites}
+        for h in hs:
+            if h is None:
+                why = 'set_matches outside the state loop'
+                continue
+            for r in loop_rows(cx.facts, b, h):
+                sm = [c for c in r.calls(r'dfa::DFA::set_matches$')]
+                nx = [c[1] for c, v in r.conds if c[0] == 'discr' and is_call(c[1], r'Iterator::next$') and v == 1 and c[1][3] in loops_blocks(b, h)]
+                if not nx:
+                    if sm:
+                        why = why or 'set_matches on a path that has no current state'
+                    continue
+                pay = ('f', ('dc', nx[0], 'Some'), '0')
+                OLD, STATE = cstr(('f', pay, '0')), cstr(('f', pay, '1'))
+                im = r.cond(lambda c: is_call(canon(c), r'noncontiguous::State::is_match$') and cstr(canon(c)[2][0]) == STATE)
+                if sm and im is not True:
+                    why = why or 'a match list is transcribed for a state that was not tested to be a match state'
+                targets = []
+                for c in sm:
+                    seen_sites.add(c[3])
+                    cc = canon(c)
+                    it = cc[2][2]
+                    if not (is_call(it, r'nfa::noncontiguous::NFA::iter_matches$') and cstr(it[2][0]) == NN and cstr(it[2][1]) == OLD):
+                        why = why or 'set_matches receives %s instead of nnfa.iter_matches(<the state being transcribed>)' % tstr(it, 140)
+                    if not cstr(cc[2][0]).endswith('dfa'):
+                        why = why or 'set_matches is called on %s' % tstr(cc[2][0], 40)
+                    targets.append(cstr(cc[2][1]))
+                if len(set(targets)) != len(targets):
+                    why = why or 'the same DFA state receives the list twice'
+                most[fn] = max(most.get(fn, 0), len(targets))
+                if im is True and r.end == ('stop', h) and not sm:
+                    why = why or 'a match state is transcribed without its match list'
+        if len(seen_sites) != len(sites):
+            why = why or 'a set_matches call site is not reached by any iteration path'
+        cx.report('R03.2', b, 'set_matches', why is None, 'set_matches(<new id>, nnfa.iter_matches(oldsid)) for the state being transcribed, iff it is a match state (%d sites)' % len(sites) if why is None else 'match list transcription deviates: %s' % why)
     cx.floor('R03.2', 'DFA set_matches call sites', n, 4)
     b = cx.body('dfa::Builder::finish_build_both_starts')
-    # both copies of a non-start match state get the list
-    sm = [(bi, b.call_term(bi, t)) for bi, t in b.calls(r'dfa::DFA::set_matches$')]
-    names = sorted(tstr(ct[2][1]) for bi, ct in sm)
-    ok = names == ['anewsid', 'newsid', 'unewsid']
-    cx.report('R03.2', b, 'both-copies', ok, 'the unanchored and the anchored copy of a match state both receive its list' if ok else 'set_matches targets in finish_build_both_starts: %s' % names)
+    ok = most.get('finish_build_both_starts') == 2
+    cx.report('R03.2', b, 'both-copies', ok, 'the unanchored and the anchored copy of a match state both receive its list' if ok else 'no iteration gives the list to two distinct DFA states (most: %s)' % most.get('finish_build_both_starts'))
     s = cx.body('dfa::DFA::set_matches')
-    pushes = [(bi, s.call_term(bi, t)) for bi, t in s.calls(r'Vec.*::push$')]
-    okp = False
-    if len(pushes) == 1:
-        ct = pushes[0][1]
-        tgt = peel(ct[2][0])
-        val = expand_vars(s, ct[2][1], keep=('pids',))
-        okp = 'self.matches' in tstr(tgt) and 'index' in tstr(tgt) and 'Iterator::next' in tstr(val)
-    idx = s.locals_named('index')
-    oki = False
-    if idx:
-        d = strip_convs(expand_vars(s, s.def_term(idx[0]) or ('s', '')))
-        st = tstr(d, 200)
-        oki = 'Shr' in st and 'stride2' in st and 'checked_sub' in st and st.count('2') >= 2
+    SID = cstr(param_at(s, 2))
+    okp = oki = False
+    sl = s.loops()
+    if len(sl) == 1:
+        h = list(sl)[0]
+        for r in loop_rows(cx.facts, s, h):
+            for c in r.calls(r'Vec.*::push$'):
+                cc = canon(c)
+                tgt, val = cc[2][0], cc[2][1]
+                nx = [x[1] for x, v in r.conds if x[0] == 'discr' and is_call(x[1], r'Iterator::next$') and v == 1]
+                if nx and is_call(tgt, r'IndexMut::index_mut$') and cstr(tgt[2][0]) == 'self.matches' and cstr(val) == cstr(('f', ('dc', nx[0], 'Some'), '0')):
+                    okp = True
+                    try:
+                        oki = teval(strip_old(tgt[2][1]), lambda t0: 40 if cstr(t0) == SID else (3 if cstr(t0) == 'self.stride2' else None)) == (40 >> 3) - 2
+                    except (Unsupported, EvalPanic):
+                        oki = False
     cx.report('R03.2', s, 'push-in-order', okp and oki, 'pushes every pid in iteration order to matches[(sid >> stride2) - 2]' if okp and oki else 'set_matches body deviates')
-    g = bool_gates(s, lambda x: is_var(x, 'at_least_one'))
+    flags = [l for l, loc in enumerate(s.locals) if loc['ty'] == 'bool' and loc['names'] and l > s.j['arg_count']]
+
+    def _is_flag(x):
+        return is_var(x) and x[2] in flags
+    g = bool_gates(s, _is_flag)
+
     oka = bool(g) and all(not any(s.blocks[r]['term']['k'] == 'return' for r in s.reach(tg)) for x in g for _, tg in x[3])
     cx.report('R16.4', s, 'non-empty', oka, 'set_matches asserts that a match state has at least one pattern' if oka else 'empty match lists are accepted')
     # contiguous: State::write is called for (oldsid, state) of the same iteration and reads only iter_trans/iter_matches(oldsid)
@@ -482,35 +520,62 @@ def r03_2(cx):
 
 # ------------------------------------------------------------------------------------------------- R09.5 / R09.6
 def r09_5(cx):
+    """set_anchored_start_state on summaries: the anchored start gets the unanchored start's transition targets link by
+    link, its matches, and DEAD as failure link."""
     b = cx.body(COMP + 'set_anchored_start_state')
-    sp = [(bi, tt, v) for bi, si, tt, v, s in b.field_stores() if tt[0] == 'f' and tt[2] == 'next' and 'sparse' in tstr(tt)]
-    ok = False
-    if len(sp) == 1:
-        tt, v = sp[0][1], sp[0][2]
-        ti = tt[1][2][1] if is_call(tt[1], r'IndexMut::index_mut$') else None
-        vi = v[1][2][1] if v[0] == 'f' and v[2] == 'next' and is_call(v[1], r'Index::index$') else None
-        if ti is not None and vi is not None:
-            td = expand_vars(b, ti, keep=('anext', 'unext', 'start_aid', 'start_uid'))
-            vd = expand_vars(b, vi, keep=('anext', 'unext', 'start_aid', 'start_uid'))
-            an = b.def_term(b.locals_named('anext')[0]) if b.locals_named('anext') else None
-            un = b.def_term(b.locals_named('unext')[0]) if b.locals_named('unext') else None
-            ok = ('anext' in tstr(td) and 'unext' in tstr(vd) and an is not None and un is not None
-                  and is_call(an, r'NFA::next_link$') and is_var(an[2][1], 'start_aid') and is_call(un, r'NFA::next_link$') and is_var(un[2][1], 'start_uid'))
-    cx.report('R09.5', b, 'copy-transitions', ok, 'every transition target of the unanchored start is copied to the anchored start, link by link' if ok else 'the anchored start\'s transitions are not copied from the unanchored start')
-    cm = [(bi, b.call_term(bi, t)) for bi, t in b.calls(r'NFA::copy_matches$')]
-    okm = len(cm) == 1 and is_var(cm[0][1][2][1], 'start_uid') and is_var(cm[0][1][2][2], 'start_aid')
-    cx.report('R09.5', b, 'copy-matches', okm, 'copy_matches(start_uid, start_aid)' if okm else 'matches of the anchored start are not copied from the unanchored start')
-    fs = [(bi, states_fail_store(tt), v) for bi, si, tt, v, s in b.field_stores() if states_fail_store(tt) is not None]
-    okf = len(fs) == 1 and is_var(fs[0][1], 'start_aid') and is_named_const(fs[0][2], r'NFA::DEAD$')
-    cx.report('R09.5', b, 'fail-dead', okf, 'the anchored start fails to DEAD' if okf else 'anchored start failure link is not DEAD')
-    oks = [bi for bi, si, pl, st in b.stores() if si != 'term' and pl['l'] == 0 and not pl['pr'] and is_agg(b.rvalue_term(st['r'], 0, bi), r'Result$', 'Ok')]
-    okall = bool(oks) and okm and okf and must_pass(b, oks, [cm[0][0]]) and must_pass(b, oks, [fs[0][0]])
-    cx.report('R09.5', b, 'on-every-path', okall, 'both happen on every path to Ok' if okall else 'match copy / DEAD failure link can be skipped')
-    for nm, val in (('start_uid', 'start_unanchored_id'), ('start_aid', 'start_anchored_id')):
-        l = b.locals_named(nm)
-        d = b.def_term(l[0]) if l else None
-        ok = d is not None and tstr(d) == 'self.nfa.special.' + val
-        cx.report('R09.5', b, nm, ok, '%s = special.%s' % (nm, val) if ok else '%s = %s' % (nm, tstr(d, 80) if d else None))
+    U, A = 'self.nfa.special.start_unanchored_id', 'self.nfa.special.start_anchored_id'
+    loops = b.loops()
+    why = None
+    if len(loops) != 1:
+        why = '%d loops (expected the one lock-step walk over both transition lists)' % len(loops)
+    else:
+        h = list(loops)[0]
+        rows = loop_rows(cx.facts, b, h)
+        cont = [r for r in rows if r.end == ('stop', h)]
+        if not cont:
+            why = 'the walk never iterates'
+        sym = Sym(cx.facts, b)
+        for r in rows:
+            nl = {}
+            for c in r.calls(r'NFA::next_link$'):
+                cc = canon(strip_old(c))
+                if cstr(cc[2][0]) == 'self.nfa':
+                    nl[cstr(cc[2][1])] = c
+            if set(nl) != {U, A}:
+                why = why or 'an iteration does not ask next_link for both start states (%s)' % sorted(nl)
+                continue
+            du = r.cond(lambda c: c[0] == 'discr' and c[1][0] == 'call' and c[1][3] == nl[U][3])
+            da = r.cond(lambda c: c[0] == 'discr' and c[1][0] == 'call' and c[1][3] == nl[A][3])
+            both_some = du == 1 and da == 1
+            both_none = du not in (1, None) and da not in (1, None)
+            UL, AL = (cstr(('f', ('dc', nl[k], 'Some'), '0')) for k in (U, A))
+            sts = [(cstr(p), cstr(v)) for p, v in r.stores()]
+            if r.end == ('stop', h):
+                if not both_some:
+                    why = why or 'the walk continues although one of the two lists has ended'
+                want = ('core::ops::IndexMut::index_mut(self.nfa.sparse, %s).next' % AL, 'core::ops::Index::index(self.nfa.sparse, %s).next' % UL)
+                if [s for s in sts if s[0].endswith('.next')] != [want]:
+                    why = why or 'a step does not copy sparse[ulink].next into sparse[alink].next (%s)' % [s for s in sts if s[0].endswith('.next')]
+                # both cursors advance to the links just visited
+                mods, _ = sym.loop_mods(h)
+                adv = sorted(cstr(r.env[l]) for l in mods if l in r.env and is_agg(canon(r.env[l]), r'Option$', 'Some') and b.locals[l]['names'])
+                if adv != sorted(['core::option::Option::Some{0: %s}' % UL, 'core::option::Option::Some{0: %s}' % AL]):
+                    why = why or 'the two link cursors do not both advance to the links just copied'
+            elif r.end != 'diverge':
+                if not both_none:
+                    why = why or 'the walk ends before both transition lists are exhausted (the last transitions are not copied)'
+    cx.report('R09.5', b, 'copy-transitions', why is None, 'every transition target of the unanchored start is copied to the anchored start, link by link, until both lists end' if why is None else why)
+    frows = [r for r in summarize(cx.facts, b) if r.end == 'return' and is_agg(r.ret, r'Result$', 'Ok')]
+    okm = okf = bool(frows)
+    for r in frows:
+        cm = [canon(strip_old(c)) for c in r.calls(r'NFA::copy_matches$')]
+        if not (len(cm) == 1 and [cstr(a) for a in cm[0][2]] == ['self.nfa', U, A]):
+            okm = False
+        fs = [(cstr(strip_old(p)), canon(v)) for p, v in r.stores() if canon(p)[0] == 'f' and canon(p)[2] == 'fail']
+        if not (len(fs) == 1 and fs[0][0] in ('core::ops::IndexMut::index_mut(self.nfa.states, %s).fail' % A, 'self.nfa.states[%s].fail' % A) and is_named_const(fs[0][1], r'NFA::DEAD$')):
+            okf = False
+    cx.report('R09.5', b, 'copy-matches', okm, 'copy_matches(start_uid, start_aid) on every path to Ok' if okm else 'matches of the anchored start are not copied from the unanchored start (on every path)')
+    cx.report('R09.5', b, 'fail-dead', okf, 'the anchored start fails to DEAD on every path to Ok' if okf else 'anchored start failure link is not set to DEAD (on every path)')
 
 
 def closure_with(cx, prefix, capture):
@@ -525,42 +590,6 @@ def closure_with(cx, prefix, capture):
 def r09_6(cx):
     from rules.dfabuild import r_one_start_closure
     r_one_start_closure(cx, ids=('R09.6',))
-    both = closure_with(cx, 'dfa::Builder::finish_build_both_starts', 'anewsid')
-    fg = bool_gates(both, lambda x: eq_cond(x) is not None and any('NFA::FAIL' in tstr(s0) for s0 in eq_cond(x)[:2]))
-    st = [(bi, tstr(tt, 200), v) for bi, si, tt, v, s in both.field_stores()]
-    a_st = [(bi, v) for bi, ts, v in st if 'anewsid' in ts]
-    u_st = [(bi, v) for bi, ts, v in st if 'unewsid' in ts]
-    fail_edges = []
-    for g in fg:
-        e = eq_cond(g[1])
-        fail_edges += g[2] if e[2] else g[3]
-    okb = bool(fg) and len(a_st) >= 1 and len(u_st) >= 2 and all(not any(bi in both.reach(tg) for _, tg in fail_edges) for bi, v in a_st)
-    cx.report('R09.6', both, 'anchored-copy-no-fail', okb, 'the anchored copy\'s row is written only for real trie transitions (FAIL keeps the initial DEAD)' if okb else 'the anchored copy receives transitions computed through failure links')
-    okv = all(is_var(v, 'oldnextsid') for bi, v in a_st)
-    cx.report('R09.6', both, 'anchored-copy-target', okv, 'the anchored copy stores the trie target itself' if okv else 'the anchored copy stores %s' % [tstr(v, 60) for _, v in a_st])
-    bb = cx.body('dfa::Builder::finish_build_both_starts')
-    g = bool_gates(bb, lambda x: 'is_anchored' in tstr(x) and ('Index' in tstr(x) or x[0] == 'idx'))
-    okr = False
-    if g:
-        gb, cond, te, fe = g[0]
-        loops = bb.loops()
-        outer = [h for h, blks in loops.items() if gb in blks]
-        outer = max(outer, key=lambda h: len(loops[h])) if outer else None
+    from rules.dfabuild import both_starts_rules
+    both_starts_rules(cx, ids=('R09.6',))
 
-        def uses(tg, name):
-            r = bb.reach(tg, cut_blocks=[gb] + ([outer] if outer is not None else []))
-            for y in r:
-                if y == outer:
-                    continue
-                for st0 in bb.blocks[y]['stmts']:
-                    if st0['k'] == 'assign' and name in tstr(bb.rvalue_term(st0['r'], 0, y), 300):
-                        return True
-                t0 = bb.term(y)
-                if t0['k'] == 'call' and name in tstr(bb.call_term(y, t0), 300):
-                    return True
-            return False
-        okr = all(uses(tg, 'remap_anchored') and not uses(tg, 'remap_unanchored') for _, tg in te) and all(uses(tg, 'remap_unanchored') and not uses(tg, 'remap_anchored') for _, tg in fe)
-    cx.report('R09.6', bb, 'remap-by-flag', okr, 'rows flagged anchored are remapped with remap_anchored, all others with remap_unanchored' if okr else 'the remap loop does not select the table by the is_anchored flag')
-    flags = [(bi, tstr(tt, 200), v) for bi, si, tt, v, s in bb.field_stores() if 'is_anchored' in tstr(tt, 200)]
-    okf = len(flags) >= 2 and all(v == ('c', 1) for _, _, v in flags) and any('anewsid' in ts for _, ts, _ in flags) and any('newsid' in ts and 'anewsid' not in ts for _, ts, _ in flags)
-    cx.report('R09.6', bb, 'flags', okf, 'the anchored start row and every anchored copy are flagged' if okf else 'is_anchored flags: %s' % [(ts, tstr(v)) for _, ts, v in flags])
